@@ -706,6 +706,15 @@ def check_transforms(ctx, exe, n):
                 # tiny coefficients / offsets to exercise snapping
                 j = r.randrange(len(dd)); dd[j] = r.choice([1e-12, -1e-12, 0.0, -0.0]) if ty not in ("sc", "cxc", "cyc", "czc") else dd[j]
             cases.append(("simpl", ty, dd, None, None, pts))
+    # corpus: the SimpleQuadric translation witness (unit sphere at (1,0,0) as SQ, translated by (1,0,0))
+    cases.insert(0, ("xlate", "sq", [1.0, 1.0, 1.0, -2.0, 0.0, 0.0, 0.0], None, [1.0, 0.0, 0.0],
+                     [[1.0, 0.0, 0.0], [3.0, 0.0, 0.0], [0.5, 0.25, 0.0], [2.0, 0.5, 0.5], [1.0, 1.0, 0.0]]))
+    for i in range(max(10, n // 10)):
+        ty = r.choice(["sq", "sq", "gq"])
+        L = 1.0
+        d = gen_surface(r, ty, L)
+        pts = [rnd_pt(r, 3 * L) for _ in range(4)] + [on_surface_point(r, ty, d, L) or rnd_pt(r, L)]
+        cases.append(("xlate", ty, d, None, rnd_pt(r, 2 * L), pts))
     lines = []
     for cmd, ty, d, R, tra, pts in cases:
         ptxt = "%d %s" % (len(pts), " ".join(hx(p) for p in pts))
@@ -728,7 +737,8 @@ def check_transforms(ctx, exe, n):
     for cmd, ty, d, R, tra, pts in cases:
         pl = "[" + "; ".join(v3(p) for p in pts) + "]"
         if cmd == "xlate":
-            exprs.append("run_xlate %s %s %s" % (v3(tra), coq_surf(ty, d), pl))
+            exprs.append("run_xlate false %s %s %s" % (v3(tra), coq_surf(ty, d), pl))
+            exprs.append("run_xlate true %s %s %s" % (v3(tra), coq_surf(ty, d), pl))
         elif cmd == "xform":
             exprs.append("run_xform (TF (M3 %s %s %s) %s) %s %s" % (v3(R[0]), v3(R[1]), v3(R[2]), v3(tra), coq_surf(ty, d), pl))
     for ax, turn in rots:
@@ -737,6 +747,7 @@ def check_transforms(ctx, exe, n):
     mi = 0
     found = False
     nviol = 0
+    nsig = 0
     for ci, case in enumerate(cases):
         cmd, ty, d, R, tra, pts = case
         tok = outl[ci].split()
@@ -744,16 +755,18 @@ def check_transforms(ctx, exe, n):
         if tok[0] != "ok":
             if cmd == "simpl" or "not implemented" in outl[ci].lower():
                 ctx.count("harness-error:" + cmd)
-                if cmd != "simpl":
-                    mi += 1
+                mi += {"simpl": 0, "xform": 1, "xlate": 2}[cmd]
                 continue
             ctx.violation("tie-broken", "harness error on transform case", {"case": case, "out": outl[ci]}, no_input=True)
-            mi += (cmd != "simpl")
+            mi += {"simpl": 0, "xform": 1, "xlate": 2}[cmd]
             continue
         q = gq_form(ty, d)
         scale = max(1.0, max(abs(x) for x in d))
         if cmd in ("xlate", "xform"):
             mv = mvals[mi]; mi += 1
+            mv_fixed = None
+            if cmd == "xlate":
+                mv_fixed = mvals[mi]; mi += 1
             ty2 = tok[1]; nd = int(tok[2]); d2 = [pf(t) for t in tok[3:3 + nd]]
             rest = tok[3 + nd:]
             per = 11
@@ -776,13 +789,37 @@ def check_transforms(ctx, exe, n):
                     bad = "transform_down(transform_up(p)) != p: %r vs %r" % (du, p)
                 if any(abs(ud[i] - p[i]) > 1e-11 * tnorm for i in range(3)):
                     bad = "transform_up(transform_down(p)) != p: %r vs %r" % (ud, p)
+            # oracle: the coefficients of the new surface are those of f(R^T (x' - t)) (exact rationals)
+            sig = None
+            if ty2 != "inv":
+                Rm = R if R is not None else [[1.0, 0, 0], [0, 1.0, 0], [0, 0, 1.0]]
+                want = gq_transform_exact(q, Rm, tra)
+                ga, gc, gg, gj = gq_form(ty2, d2)
+                got = list(ga) + list(gc) + list(gg) + [gj]
+                tn = 1 + max(abs(x) for x in tra)
+                S = float(max(abs(x) for x in list(q[0]) + list(q[1])) * tn * tn + max(abs(x) for x in q[2]) * tn + abs(q[3]))
+                worst = max(abs(float(a - b)) for a, b in zip(got, want))
+                if worst > 1e-9 * S + 1e-300:
+                    bad = ((bad + "; " if bad else "") +
+                           "%s of %s does not have the coefficients of f(R^T(x' - t)): max deviation %.3g (scale %.3g); got %r, expected %r"
+                           % (cmd, ty, worst, S, [float(x) for x in got], [float(x) for x in want]))
+                    if cmd == "xlate" and ty == "sq":
+                        sig = "translator-sq-constant-term"
             if bad:
-                ctx.violation("oracle", "%s (%s %s)" % (bad, cmd, ty), replay)
-                found = True; nviol += 1
-                if nviol > 6:
-                    break
-                continue
-            # correspondence
+                if sig is None or nsig == 0:
+                    ctx.violation("oracle", "%s (%s %s)" % (bad, cmd, ty), replay, signature=sig)
+                if sig is None:
+                    found = True; nviol += 1
+                    if nviol > 6:
+                        break
+                    continue
+                nsig += 1
+                ctx.count("known-signature:" + sig)
+            # correspondence (for the translator: the model as coded, or the repaired variant)
+            if mv_fixed is not None and not (TYPES[mv[0]] == ty2 and len(mv[1]) == len(d2) and
+                                            all(abs(a - b) <= 1e-9 * abs(b) + 1e-10 * max([abs(x) for x in d2] + [1e-300]) for a, b in zip(mv[1], d2))):
+                mv = mv_fixed
+                ctx.count("translator-matches-repaired-model")
             mcode, mdata = mv[0], mv[1]
             dscale = max([abs(x) for x in d2] + [1e-300])
             if TYPES[mcode] != ty2 or len(mdata) != len(d2) or \
